@@ -224,9 +224,14 @@ pub fn replay_round(beh: &Value, beh_text: &str, seed: u64, round: u64, stats: &
             // serialized bytes = the specification's wire term
             let w = &beh["wire"];
             if w.get(0).and_then(|x| x.as_str()) != Some("none") {
-                let want = ctx.wire(w).map_err(|er| fail("tool", &op, format!("tool:wire:{}", op), er.0))?;
+                let want = match ctx.wire(w) {
+                    Ok(b) => Some(b),
+                    Err(er) if er.0.starts_with("opaque:") => None,
+                    Err(er) => return Err(fail("tool", &op, format!("tool:wire:{}", op), er.0)),
+                };
                 let gotb = e.tagged_cbor().to_cbor_data();
-                if want != gotb {
+                if want.is_some() && want.as_ref() != Some(&gotb) {
+                    let want = want.unwrap();
                     return Err(fail(
                         "wire",
                         &op,
@@ -245,7 +250,13 @@ pub fn replay_round(beh: &Value, beh_text: &str, seed: u64, round: u64, stats: &
         Outcome::Obs(v) => {
             let natural = natural_type_ok(&want_out[1], step, &ctx);
             if let Err(d) = crate::obs::compare_obs(&op, &want_out[1], v, &mut ctx, natural) {
-                return Err(fail("observation", &op, format!("obs:{}", op), format!("{}: {}", op, d)));
+                // a "#sub-key#" prefix narrows the failure key (used to match known findings narrowly)
+                let (sub, d) = match d.strip_prefix('#').and_then(|r| r.split_once("# ")) {
+                    Some((k, rest)) => (format!(":{}", k), rest.to_string()),
+                    None => (String::new(), d),
+                };
+                let ty = if op == "obs_extract" { format!(":{}", step[3].as_str().unwrap_or("")) } else { String::new() };
+                return Err(fail("observation", &op, format!("obs:{}{}{}", op, ty, sub), format!("{}: {}", op, d)));
             }
             stats.nontrivial.insert(fnv(&format!("{}|{}", op, want_out[1])));
         }
